@@ -26,7 +26,7 @@ def knob_vector(rng, big):
     if rng.random() < 0.5:
         env["VTL_MEMORY_LIMIT"] = rng.choice(["80%", "64MB", "1GB", "2000000000", "50%", "256MB"])
     if rng.random() < 0.4:
-        env["VTL_TEMP_DIRECTORY"] = rng.choice(["fresh_%d" % rng.randrange(1000), "nested/a/b_%d" % rng.randrange(1000)])
+        env["VTL_TEMP_DIRECTORY"] = rng.choice(["fresh_%d", "nested/a/b_%d", "with space_%d", "ünï cödé_%d", "trailing_%d/", "dots/../up_%d", "q'uote_%d"]) % rng.randrange(1000)
     if rng.random() < 0.3:
         env["VTL_MAX_TEMP_DIRECTORY_SIZE"] = "1GB"
     if not big and rng.random() < 0.6:
@@ -352,7 +352,10 @@ def run(ctx):
     items = bigs + [("sample", rng.randrange(1 << 30)) for _ in range(4 if quick else 120)] + \
         [("tseries", rng.randrange(1 << 30)) for _ in range(12 if quick else 600)] + items
     size = 5
-    tasks = [{"items": items[i:i + size]} for i in range(0, len(items), size)]
+    heavy = [it for it in items if it[0] in ("big", "bigframe", "sample")]
+    light = [it for it in items if it[0] not in ("big", "bigframe", "sample")]
+    # heavy workloads one per task (so that they run side by side from the start), light ones in chunks
+    tasks = [{"items": [it]} for it in heavy] + [{"items": light[i:i + size]} for i in range(0, len(light), size)]
     # hash-seed differential (fresh interpreters): a few batches
     baits = [("bait", rng.randrange(1 << 30)) for _ in range(24 if quick else 400)]
     hs_items = baits + [it for it in items if it[0] in ("gen", "dag")][: (24 if quick else 400)]
